@@ -1,4 +1,5 @@
 import PoolProofs.C20Lemmas
+import PoolProofs.C08I2Lemmas
 /-!
 # C20 — recovery restores a spendable account and never moves funds
 
@@ -48,13 +49,13 @@ trace of `RecoverAccount` grows by store writes only – no `SendOutputs`, no `P
 theorem C20_no_funding_calls (s : AState) (a : Acct) (known : List Tx) (h : reportable a.state = true) :
     ∀ e ∈ (step s (.recover a known)).1.trace, e ∈ s.trace ∨ ∃ b, e = Effect.write b := by
   simp only [step]
-  have h1 : OnlyWrites s (write { s with wallet := known } a) := by
+  have h1 : OnlyWrites s (write { s with wallet := known } { a with secret := s.signerSecret }) := by
     intro e he
     simp [write] at he
     rcases he with he | he
     · exact Or.inl he
     · exact Or.inr ⟨_, he⟩
-  exact OnlyWrites.trans h1 (ow_resume_recovery _ a false none h)
+  exact OnlyWrites.trans h1 (ow_resume_recovery _ _ false none h)
 
 /-- … in particular for everything `unmarshallServerRecoveredAccount` can produce -/
 theorem C20_no_funding_calls_reported (s : AState) (srv : Nat) (op : OutPoint) (v e ver bk hint : Nat)
@@ -62,6 +63,16 @@ theorem C20_no_funding_calls_reported (s : AState) (srv : Nat) (op : OutPoint) (
     ∀ x ∈ (step s (.recover (recovered srv op v e ver bk hint latest) known)).1.trace,
       x ∈ s.trace ∨ ∃ b, x = Effect.write b :=
   C20_no_funding_calls s _ known (C20_state_mapping_total srv).1
+
+/-! ## the account secret is re-derived -/
+
+/-- **C20 / secret re-derived**: whatever the auctioneer's report carries, the record recovery stores – in
+every state it ends in (pending open, canceled, pending update / batch, expired, closed) – holds the secret
+the wallet's signer derives (`DeriveSharedKey(auctioneer key, trader key locator)`), not a reported one. -/
+theorem C20_secret_rederived (s : AState) (a : Acct) (known : List Tx) (b : Acct)
+    (hb : (step s (.recover a known)).1.acct = some b) : b.secret = s.signerSecret := by
+  simp only [step] at hb
+  exact secOK_resume (secOK_write _ _ rfl) _ rfl _ _ _ _ b hb
 
 /-! ## the stored record matches the located / reported output -/
 
@@ -109,7 +120,22 @@ theorem C20_unknown_funding_cancelled (k : Nat) (a : Acct) (known : List Tx)
     | none => simpa using hf
     | some t => simp [hl t hlt, hf]
   simp only [step]
-  exact resume_cancel _ a hst (by simpa [write, AState.init] using hloc)
+  exact resume_cancel _ { a with secret := (AState.init k).signerSecret } hst
+    (by simpa [write, AState.init, Acct.out, Acct.script] using hloc)
+
+/-- **C20 / resumes watching**: whenever `RecoverAccount` succeeds, the recovered account is watched for
+the event its state waits for (confirmation of the located funding / reported transaction, spend of an
+expired account) – C08's I2 – starting from whatever registry there was. -/
+theorem C20_resumes_watching (s : AState) (a : Acct) (known : List Tx) (hrep : reportable a.state = true)
+    (hok : (step s (.recover a known)).2 = .ok) : Inv2 (step s (.recover a known)).1 := by
+  simp only [step] at hok ⊢
+  apply resume_inv2 _ _ _ _ _ _ _ hok
+  intro hne
+  show some (Acct.stored _) = _
+  rw [stored_of_live hne]
+  intro hc
+  have : a.state = .canceled := hc
+  rw [this] at hrep; simp [reportable] at hrep
 
 /-! ## the key sweep -/
 
